@@ -96,6 +96,7 @@ def run(repo, run, tier):
     # a step handed back with unconverged stages is neither; the acceptance typestate of C02.4 is therefore a necessary condition here too
     from .c02 import newton
     newton(repo, run, rule_id="C10.5")
+    kick_mask_plumbing(repo, run)
 
 
 def shear_shape(repo, run, r4, upd, stepfn, dcol, kcol):
@@ -203,3 +204,103 @@ def shear_shape(repo, run, r4, upd, stepfn, dcol, kcol):
     if not okd:
         run.report("C10.4", rel, stepfn, "self.dState is not reset before the stage loop: the step would start from the previous "
                                          "step's increment", text="dState reset")
+
+
+# ------------------------------------------------------------------------------------------------
+BACKEND = "desolver/backend/"
+
+
+def backend_namespace(repo):
+    """names that `import desolver.backend as D` provides, resolved statically: load_backend star-imports common, autoray_backend, numpy_backend and
+    (optionally) torch_backend; a module with __all__ exports that list, otherwise its public top-level names"""
+    import ast as _ast
+
+    def top_names(mod):
+        names, allv = set(), None
+        for st in _ast.walk(mod.tree):
+            if isinstance(st, (_ast.FunctionDef, _ast.ClassDef)) and st._parent is mod.tree:
+                names.add(st.name)
+        for st in mod.tree.body:
+            todo = [st]
+            if isinstance(st, (_ast.Try, _ast.If, _ast.With)):
+                todo = [x for x in _ast.walk(st) if isinstance(x, _ast.stmt)]
+            for x in todo:
+                if isinstance(x, _ast.Assign):
+                    for t in x.targets:
+                        names |= {n.id for n in _ast.walk(t) if isinstance(n, _ast.Name)}
+                        if isinstance(t, _ast.Name) and t.id == "__all__" and isinstance(x.value, (_ast.List, _ast.Tuple)):
+                            allv = {e.value for e in x.value.elts if isinstance(e, _ast.Constant)}
+                elif isinstance(x, _ast.Import):
+                    names |= {(a.asname or a.name).split(".")[0] for a in x.names}
+                elif isinstance(x, _ast.ImportFrom):
+                    names |= {a.asname or a.name for a in x.names if a.name != "*"}
+                elif isinstance(x, (_ast.FunctionDef, _ast.ClassDef)):
+                    names.add(x.name)
+        return names, allv
+    lb = repo.module(BACKEND + "load_backend.py")
+    ns, _ = top_names(lb)
+    stars = [st for st in _ast.walk(lb.tree) if isinstance(st, _ast.ImportFrom) and any(a.name == "*" for a in st.names)]
+    if not stars:
+        raise AnalysisError("desolver.backend: star imports of load_backend not found")
+    for st in stars:
+        rel = BACKEND + (st.module or "").split(".")[-1] + ".py"
+        if rel not in repo.modules:
+            raise AnalysisError("desolver.backend: star-imported module %s not found" % rel)
+        names, allv = top_names(repo.module(rel))
+        ns |= allv if allv is not None else {n for n in names if not n.startswith("_")}
+    init = repo.module(BACKEND + "__init__.py")
+    if not any(isinstance(st, _ast.ImportFrom) and (st.module or "").endswith("load_backend") and any(a.name == "*" for a in st.names) for st in init.tree.body):
+        raise AnalysisError("desolver.backend.__init__ no longer star-imports load_backend")
+    return ns
+
+
+def kick_mask_plumbing(repo, run):
+    """'for all kick masks': a mask given by the user must reach the splitting integrator and the code that installs it must be executable"""
+    import ast as _ast
+    from ..front import walk_no_nested, is_self_attr, src, dotted
+    rid = run.rule("C10.6", "kick-mask plumbing: (a) the guard under which OdeSystem hands the user's mask to the integrator reads no @property through the CLASS "
+                            "object self.__method (a property object is always truthy, `not <property>` always false); (b) every name the mask-installing code "
+                            "takes from desolver.backend exists there (resolved statically through the package's star imports)", floor=3)
+    DSF = "desolver/differential_system.py"
+    ITY = extract.ITYPES
+    # properties of the integrator classes
+    props = set()
+    for rel in (ITY, "desolver/integrators/integrator_template.py"):
+        for q, n in repo.functions(rel):
+            if any(dotted(d) == "property" for d in n.decorator_list):
+                props.add(n.name)
+    if "is_implicit" not in props:
+        raise AnalysisError("integrator classes: the is_implicit property was not found")
+    cls = repo.get(DSF, "OdeSystem")
+    n_reads = 0
+    for fn in [n for n in cls.body if isinstance(n, _ast.FunctionDef)]:
+        # self.__method holds a class: it is called to construct self.integrator
+        for x in _ast.walk(fn):
+            if isinstance(x, _ast.Attribute) and is_self_attr(x.value, "__method") and isinstance(x.ctx, _ast.Load):
+                n_reads += 1
+                ok = x.attr not in props
+                run.judged(rid, "%s: class-level read %s" % (fn.name, src(x)), ok=ok)
+                if not ok:
+                    run.report("C10.6", DSF, x, "`%s` reads the property `%s` through the class object held in self.__method: the value is the property object itself "
+                                                "(always truthy), not the method's flag; the condition it appears in is constant and the user's kick mask is never "
+                                                "handed to the splitting integrator (the default half/half mask is used silently)" % (src(x), x.attr))
+    if n_reads == 0:
+        raise AnalysisError("OdeSystem: no class-level reads through self.__method found")
+    ns = backend_namespace(repo)
+    run.judged(rid, "desolver.backend namespace resolved: %d names" % len(ns), ok=len(ns) >= 10)
+    mod = repo.module(ITY)
+    als = [k for k, v in mod.aliases.items() if v.endswith("backend")]
+    if not als:
+        raise AnalysisError("integrator_types: backend alias not found")
+    n_fn = 0
+    for q, fn in repo.functions(ITY):
+        if not any(isinstance(x, _ast.Name) and x.id == "staggered_mask" or isinstance(x, _ast.Constant) and x.value == "staggered_mask" for x in _ast.walk(fn)):
+            continue
+        n_fn += 1
+        bad = [x for x in walk_no_nested(fn) if isinstance(x, _ast.Attribute) and isinstance(x.value, _ast.Name) and x.value.id in als and x.attr not in ns]
+        run.judged(rid, "%s: backend names used by the mask code all exist" % q, ok=not bad)
+        for x in bad:
+            run.report("C10.6", ITY, x, "`%s` does not exist in desolver.backend (resolved through its star imports): installing a kick mask raises AttributeError, so no "
+                                        "mask other than the default can be used" % src(x))
+    if n_fn == 0:
+        raise AnalysisError("integrator_types: no function handles staggered_mask")
